@@ -231,6 +231,9 @@ def build_tree(out, vb, units=False):
         # (five strokes against six fills: every pairing of opaque / translucent / transparent / none paints comes up)
         p.stroke = svg.Color(["none", "blue", "#00800040", "black", "#12345601"][(j + j // 6) % 5])
         p.stroke_width = [1.0, 2.5, 0.5, 3.0, 2.0, 4.0][j % 6]
+        if units and i % 2 == 1:
+            # a stroke width still given in units; the "resolved" twin of the tree carries the value the reader will compute
+            p.stroke_width = svg.Length("2mm") if units is True else svg.Length("2mm").value(ppi=96.0)
         (grp if i % 2 else root).append(p)
     return root
 
